@@ -1,0 +1,56 @@
+//go:build verif
+
+package util
+
+import (
+	"os"
+	"strconv"
+	"sync/atomic"
+	gotime "time"
+)
+
+// VerifRepeatHooks lets a verification harness drive the otherwise endless
+// WithRepeat loop. It only exists in builds with the `verif` tag.
+type VerifRepeatHooks struct {
+	// Interval replaces the tick interval of the loop.
+	Interval gotime.Duration
+	// AfterIteration is called after every completed iteration with the
+	// iteration counter (starting at 1). Returning true ends the loop.
+	AfterIteration func(counter int64) bool
+}
+
+var verifRepeatHooks atomic.Pointer[VerifRepeatHooks]
+
+// SetVerifRepeatHooks installs (or, with nil, removes) the hooks.
+func SetVerifRepeatHooks(h *VerifRepeatHooks) {
+	verifRepeatHooks.Store(h)
+}
+
+// In the real binary the loop can be bounded via KLOG_VERIF_MAXITER=<n>.
+func verifMaxIterFromEnv() int64 {
+	n, err := strconv.ParseInt(os.Getenv("KLOG_VERIF_MAXITER"), 10, 64)
+	if err != nil || n <= 0 {
+		return 0
+	}
+	return n
+}
+
+func verifInterval(interval gotime.Duration) gotime.Duration {
+	if h := verifRepeatHooks.Load(); h != nil && h.Interval > 0 {
+		return h.Interval
+	}
+	if verifMaxIterFromEnv() > 0 {
+		return gotime.Millisecond
+	}
+	return interval
+}
+
+func verifStop(counter int64) bool {
+	if h := verifRepeatHooks.Load(); h != nil && h.AfterIteration != nil {
+		return h.AfterIteration(counter)
+	}
+	if n := verifMaxIterFromEnv(); n > 0 {
+		return counter >= n
+	}
+	return false
+}
